@@ -134,13 +134,18 @@ class ModularVmapEval(_NoReplay):
     """axis size inferred iff not given; the dummy has one entry per lane; jax.vmap maps the dummy along 0
     and the arguments per the caller's in_axes"""
 
-    cases = ["axis_size_given", "axis_size_inferred"]
+    cases = ["axis_size_given", "axis_size_inferred", "axis_size_inferred:python_scalar_arguments"]
 
     def call(self, case):
         self.v = install_jax()
         self.fnc = lambda *a: None
         self.a = Tensor.fresh("a", (4, 2))
         self.given = 4 if case == "axis_size_given" else None
+        if "python_scalar_arguments" in case:
+            # f(x, 2.5, 3) with unmapped Python scalars: per lane f sees them WEAKLY typed (they take the dtype of the
+            # lanes they are combined with - float16 / uint8 lanes stay float16 / uint8); handing f arrays of a fixed
+            # dtype instead changes f's result dtype and values
+            return self.real(pjax.ModularVmap().eval, (0, None, None), self.given, "ax", None, self.fnc, self.a, 2.5, 3)
         return self.real(pjax.ModularVmap().eval, 0, self.given, "ax", None, self.fnc, self.a)
 
     def ensures(self, case, path):
@@ -152,6 +157,13 @@ class ModularVmapEval(_NoReplay):
         if len(c) != 1:
             return
         r = c[0]
+        if "python_scalar_arguments" in case:
+            yield "in_axes_is_(0, callers_in_axes)", r["in_axes"] == (0, (0, None, None))
+            dummy, args = r["args"]
+            weakly = lambda v, py: (type(v) is type(py) and v == py) or (isinstance(v, Sym) and getattr(v, "weak", False) and z3.is_true(z3.simplify(_lift(v) == _lift(py))))
+            yield "array_argument_forwarded", len(args) == 3 and args[0] is self.a
+            yield "python_scalar_arguments_reach_the_function_weakly_typed_with_their_values", len(args) == 3 and weakly(args[1], 2.5) and weakly(args[2], 3)
+            return
         yield "in_axes_is_(0, callers_in_axes)", r["in_axes"] == (0, 0)
         yield "axis_size_is_given_or_inferred", r["axis_size"] == 4
         dummy, args = r["args"]
